@@ -3,15 +3,15 @@ CONSTANTS
   MinVols = 1
   MaxVols = 2
   TTL = 2
-  Lives = {2}
+  Lives = {0, 2}
   Serial = {FALSE, TRUE}
   Trashing = {TRUE}
-  WKinds = {"none", "put", "touch"}
+  WKinds = {"none", "put", "pull", "pull_any"}
   TKinds = {"none", "delete", "list_eq"}
-  XKinds = {"untrash", "empty"}
-  MaxActors = 2
-  PreSet = {"none", "intact_old", "intact_young", "corrupt_old"}
-  PreTrash = {"none", "live", "expired"}
+  XKinds = {"none", "index"}
+  MaxActors = 3
+  PreSet = {"none", "intact_old", "corrupt_old"}
+  PreTrash = {"none", "live"}
   ROSets = {{}, {2}}
   TickSizes = {2}
   MaxTicks = 1
@@ -22,5 +22,5 @@ CONSTANTS
   POR = FALSE
   MaxHist = 0
 VIEW view
-INVARIANTS TypeOK ContractHolds RaceNeedsUntrash AckedSurvives LockDiscipline MutexDiscipline
+INVARIANTS TypeOK NoViolation IndexComplete AckedSurvives LockDiscipline MutexDiscipline
 CHECK_DEADLOCK FALSE
